@@ -30,9 +30,9 @@ ERRNO = {
 SEAM_KINDS = {
     "open-r": ["ENOENT", "EISDIR", "EACCES", "EIO", "EMFILE"],
     "read": ["EIO", "BADUTF8"],
-    "open-w": ["ENOENT", "EACCES", "EISDIR", "ENOSPC"],
-    "write": ["ENOSPC"],
-    "close-w": ["EIO"],
+    "open-w": ["ENOENT", "EACCES", "EISDIR", "ENOSPC", "EMFILE", "EROFS"],
+    "write": ["ENOSPC", "EIO"],
+    "close-w": ["EIO", "ENOSPC"],
     "stdout": ["EPIPE"],
     "stderr": ["EPIPE"],
 }
@@ -96,20 +96,29 @@ class _SimReadFile:
         return iter(self.read().splitlines(True))
 
 
-class _SimWriteFile:
-    """POSIX-visible semantics: created/truncated at open, bytes land as they are written,
-    a faulted write leaves a prefix, a faulted close loses the tail."""
+BUFSIZE = 8192
 
-    def __init__(self, world, path, text, encoding):
+
+class _SimWriteFile:
+    """POSIX-visible semantics: created/truncated at open; a buffered file (the default) hands its
+    bytes to the device when the buffer fills, on flush() and on close(), so an error may only surface
+    at close; an unbuffered binary file (buffering=0) writes at once and, when the device cannot take
+    everything, returns a short count instead of raising; a file that is never closed is closed by
+    its finalizer, where errors are swallowed (as CPython does).  A faulted device write leaves a
+    prefix, a faulted close loses the tail."""
+
+    def __init__(self, world, path, text, encoding, buffering=-1):
         self.world = world
         self.name = path
         self._text = text
         self._encoding = encoding or "utf-8"
         self.closed = False
         self._wrote = 0
+        self._pos = None      # None = append at end; int = overwrite in place ('r+')
+        self._unbuffered = (buffering == 0 and not text)
+        self._buf = b""
 
     def write(self, data):
-        w = self.world
         if self.closed:
             raise ValueError("I/O operation on closed file.")
         if self._text:
@@ -120,35 +129,65 @@ class _SimWriteFile:
             if isinstance(data, str):
                 raise TypeError("a bytes-like object is required, not 'str'")
             raw = bytes(data)
-        kind = w.seam("write", self.name)
-        if kind == "ENOSPC":
-            keep = int(len(raw) * w.fault_arg)
-            w.files[self.name] = w.files.get(self.name, b"") + raw[:keep]
-            w.event("write", self.name, keep)
-            w.event("fail", self.name, "write:ENOSPC:injected")
-            w.torn.add(self.name)
-            raise make_oserror("ENOSPC")
-        w.files[self.name] = w.files.get(self.name, b"") + raw
-        self._wrote += len(raw)
-        w.event("write", self.name, len(raw))
+        if self._unbuffered:
+            return self._device_write(raw, short_ok=True)
+        self._buf += raw
+        if len(self._buf) >= BUFSIZE:
+            self._flush()
         return len(data)
 
+    def _device_write(self, raw, short_ok):
+        w = self.world
+        kind = w.seam("write", self.name)
+        if kind is not None:
+            keep = int(len(raw) * w.fault_arg)
+            self._put(raw[:keep])
+            self._wrote += keep
+            w.event("write", self.name, keep)
+            w.event("fail", self.name, "write:%s:injected" % kind)
+            w.torn.add(self.name)
+            if short_ok and keep > 0:
+                return keep          # the device took what fitted: short count, no exception (yet)
+            raise make_oserror(kind)
+        self._put(raw)
+        self._wrote += len(raw)
+        w.event("write", self.name, len(raw))
+        return len(raw)
+
+    def _flush(self):
+        buf, self._buf = self._buf, b""
+        if buf:
+            self._device_write(buf, short_ok=False)
+
+    def _put(self, raw):
+        """Place bytes at the file position (append for 'w'/'a', overwrite in place for 'r+')."""
+        w = self.world
+        cur = w.files.get(self.name, b"")
+        if self._pos is None:
+            w.files[self.name] = cur + raw
+        else:
+            w.files[self.name] = cur[:self._pos] + raw + cur[self._pos + len(raw):]
+            self._pos += len(raw)
+
     def flush(self):
-        pass
+        if self.closed:
+            raise ValueError("I/O operation on closed file.")
+        self._flush()
 
     def close(self):
         if self.closed:
             return
-        self.closed = True
+        self.closed = True       # like CPython: the file is closed even if the final flush fails
+        self._flush()
         w = self.world
         kind = w.seam("close-w", self.name)
-        if kind == "EIO":
+        if kind is not None:
             cur = w.files.get(self.name, b"")
             keep = int(len(cur) * w.fault_arg)
             w.files[self.name] = cur[:keep]
-            w.event("fail", self.name, "close:EIO:injected")
+            w.event("fail", self.name, "close:%s:injected" % kind)
             w.torn.add(self.name)
-            raise make_oserror("EIO")
+            raise make_oserror(kind)
         w.event("close", self.name, self._wrote)
         w.closed_ok.add(self.name)
 
@@ -158,6 +197,15 @@ class _SimWriteFile:
     def __exit__(self, *exc):
         self.close()
         return False
+
+    def __del__(self):
+        # never closed explicitly: the finalizer closes, and errors raised there are ignored
+        if not self.closed:
+            try:
+                self.world.event("finalizer-close", self.name, None)
+                self.close()
+            except BaseException:  # noqa
+                pass
 
 
 class _SimBinStream:
@@ -336,7 +384,13 @@ class World:
         if "r" in mode and "+" not in mode:
             return self._open_read(rpath, text, encoding)
         if "w" in mode:
-            return self._open_write(rpath, text, encoding)
+            return self._open_write(rpath, text, encoding, "w", buffering)
+        if "a" in mode:
+            return self._open_write(rpath, text, encoding, "a", buffering)
+        if "x" in mode:
+            return self._open_write(rpath, text, encoding, "x", buffering)
+        if "r" in mode and "+" in mode:
+            return self._open_write(rpath, text, encoding, "r+", buffering)
         raise io.UnsupportedOperation("simulated fs: mode %r" % mode)
 
     def _open_read(self, path, text, encoding):
@@ -355,7 +409,7 @@ class World:
         self.event("open-r", path)
         return _SimReadFile(self, path, self.files[path], text, encoding)
 
-    def _open_write(self, path, text, encoding):
+    def _open_write(self, path, text, encoding, how="w", buffering=-1):
         kind = self.seam("open-w", path)
         if kind is not None:
             self.event("fail", path, "open-w:%s:injected" % kind)
@@ -372,14 +426,28 @@ class World:
             self.event("fail", path, "open-w:EACCES:natural")
             self.natural_io.append(("out", path, "EACCES"))
             raise make_oserror("EACCES", path)
-        if path in self.files:
-            self.event("truncate", path)
+        exists = path in self.files
+        if how == "x" and exists:
+            self.event("fail", path, "open-w:EEXIST:natural")
+            self.natural_io.append(("out", path, "EEXIST"))
+            raise FileExistsError(17, "File exists", path)
+        if how == "r+" and not exists:
+            self.event("fail", path, "open-w:ENOENT:natural")
+            self.natural_io.append(("out", path, "ENOENT"))
+            raise make_oserror("ENOENT", path)
+        if exists:
+            # 'w' truncates; 'a' and 'r+' keep the old bytes (which is how a stale tail survives)
+            self.event("truncate" if how == "w" else "open-rw", path)
             self.truncated.append(path)
         else:
             self.event("create", path)
             self.created.append(path)
-        self.files[path] = b""
-        return _SimWriteFile(self, path, text, encoding)
+        if how in ("w", "x") or not exists:
+            self.files[path] = b""
+        f = _SimWriteFile(self, path, text, encoding, buffering)
+        if how == "r+":
+            f._pos = 0
+        return f
 
     # ---- diagnostics tap ------------------------------------------------------
     def _tap(self, priority, identifier, *reps):
